@@ -6,7 +6,6 @@ package server
 import (
 	"fmt"
 	"strings"
-	"time"
 )
 
 type histChecker struct {
@@ -140,19 +139,12 @@ func (hc *histChecker) onReply(op *Op, connID int) {
 	if hi > lo {
 		hc.nWindows++
 	}
-	// virtual instants at which the command may have executed
-	var times []time.Duration
+	// virtual instant(s) at which the command may have executed
+	tLo, tHi := op.InvokeT, op.ReturnT
 	if hc.exact {
 		g := hc.cmdGrant(op, connID)
-		times = []time.Duration{w.timeAt(g.step)}
-	} else {
-		last := time.Duration(-1)
-		for st := op.Invoke; st <= op.Return && len(times) < 24; st++ {
-			if t := w.timeAt(st); t != last {
-				times = append(times, t)
-				last = t
-			}
-		}
+		tLo = w.timeAt(g.step)
+		tHi = tLo
 	}
 	var firstErr error
 	for k := lo; k <= hi; k++ {
@@ -174,9 +166,10 @@ func (hc *histChecker) onReply(op *Op, connID int) {
 			}
 		}
 		// candidate: the op changed nothing and was evaluated on state k
-		for _, t := range times {
+		for range []int{0} {
 			m := lm.states[k].clone()
-			r := m.apply(op.Cmd.Args, t)
+			m.nowHi = tHi
+			r := m.apply(op.Cmd.Args, tLo)
 			if r.undef {
 				w.harnessErr("client command outside the modelled fragment: %s", clipStr(op.Cmd.String(), 200))
 				return
@@ -250,6 +243,7 @@ func (hc *histChecker) onScriptReply(op *Op) {
 				op.Client, op.Idx, i, found, lm.entries[found].step, prev, lm.entries[prev].step)
 			return
 		}
+		op.Applied = i + 1
 		lm.entries[found].owner = fmt.Sprintf("a%02d/op%d/script", op.Client, op.Idx)
 		hc.acked[strings.Join(in, "\x00")] = true
 		prev = found
